@@ -78,7 +78,8 @@ def gen_case(seed, tier):
             if kind_w == "rename":
                 if ndom == 2:
                     a_, b_ = cfg.sample(["a", "b"], 2)
-                    wrap.append(["rename", {a_: b_}])
+                    # a one-way rename, or a swap (every target is also a source: the mapping must be applied simultaneously)
+                    wrap.append(["rename", {a_: b_} if cfg.random() < 0.5 else {a_: b_, b_: a_}])
             else:
                 wrap.append([kind_w, cfg.choice(doms)["name"], nctl])
                 nctl += 1
